@@ -1,3 +1,100 @@
-import DmlcModel.Parse.Model
+/-
+C11 — witnesses.
+(1) Non-vacuity: a concrete conversion satisfying `Conv.Local`, and concrete texts satisfying the
+    hypotheses of the C11 theorems.
+(2) The misbehaviour of the pinned source (`Fixes.pinned` = the model with none of the repairs),
+    decided on the model: the findings C11-F1..F4, and the same inputs under the repaired source.
+-/
+import DmlcModel.Props.C11
+
 namespace DmlcModel.Props.C11Witness
+open DmlcModel DmlcModel.Parse DmlcModel.Props.C11
+
+deriving instance DecidableEq for Except
+
+def isDig (b : UInt8) : Bool := 48 ≤ b.toNat && b.toNat ≤ 57
+/-- decimal value of the leading digits -/
+def dig (s : Bytes) : Nat := (s.takeWhile isDig).foldl (fun a b => a * 10 + (b.toNat - 48)) 0
+
+/-- a conversion that is local by construction: decimal digits at the start of the token run -/
+def convRun : Conv :=
+  { real := fun mem p => .ok (dig (runAt mem p))
+    index := fun mem p => .ok (dig (runAt mem p))
+    qid := fun mem p => .ok (dig (runAt mem p))
+    cell := fun mem p => .ok (dig (runAt mem p), p + ((runAt mem p).takeWhile isDig).length) }
+
+theorem convRun_local : convRun.Local :=
+  ⟨fun r => .ok (dig r), fun r => .ok (dig r), fun r => .ok (dig r),
+   fun r => .ok (dig r, (r.takeWhile isDig).length),
+   ⟨fun _ _ _ => rfl, fun _ _ _ => rfl, fun _ _ _ => rfl, fun _ _ _ => rfl⟩⟩
+
+/-- "1 1:3\n# 5 2:3\n \n2 4:1\n": a comment line and a blank line between two rows -/
+def doc1 : Bytes := [49, 32, 49, 58, 51, 10, 35, 32, 53, 32, 50, 58, 51, 10, 32, 10, 50, 32, 52, 58, 49, 10]
+
+def row (l : Nat) (i v : List Nat) : Row :=
+  { label := some l, weight := none, qid := none, field := none, index := i, value := some v }
+
+/-- the hypotheses of `C11_block_is_concat_of_lines_libsvm` hold for `doc1` … -/
+example : (eolSplit doc1).mapM (rows (.libsvm 32 0) convRun) = .ok [[row 1 [1] [3]], [], [], [row 2 [4] [1]], []] := by
+  decide
+example : AgreeRows ([[row 1 [1] [3]], [], [], [row 2 [4] [1]], []] : List (List Row)).flatten :=
+  ⟨Or.inl (by decide), Or.inr (by decide), Or.inr (by decide), Or.inl (by decide)⟩
+/-- … and so does its conclusion, computed directly -/
+example : rows (.libsvm 32 0) convRun doc1 = .ok [row 1 [1] [3], row 2 [4] [1]] := by decide
+
+/-! ### the pinned source (no repairs) -/
+
+def isWs (b : UInt8) : Bool := Gen.Parse.isspace b.toNat
+/-- what the real conversions do: skip white space *including end-of-line bytes*, then convert -/
+def convSkip : Conv :=
+  { real := fun mem p => .ok (dig ((mem.drop p).dropWhile isWs))
+    index := fun mem p => .ok (dig ((mem.drop p).dropWhile isWs))
+    qid := fun mem p => .ok (dig ((mem.drop p).dropWhile isWs))
+    cell := fun mem p =>
+      let s := mem.drop p
+      .ok (dig (s.dropWhile isWs), p + (s.takeWhile isWs).length + ((s.dropWhile isWs).takeWhile isDig).length) }
+
+def pinnedRows (f : Format) (t : Bytes) : Res (List Row) :=
+  (f.parseBlock Fixes.pinned convSkip (t ++ [0]) 0 t.length).bind rowsOf
+def repairedRows (f : Format) (t : Bytes) : Res (List Row) :=
+  (f.parseBlock Fixes.repaired convSkip (t ++ [0]) 0 t.length).bind rowsOf
+
+/-- "1 1:\n9 2:2\n" -/
+def docColon : Bytes := [49, 32, 49, 58, 10, 57, 32, 50, 58, 50, 10]
+/-- C11-F1 on the pinned source: the value of row 0 is the label of the next line (9); the line alone gives 0 -/
+example : pinnedRows (.libsvm 32 0) docColon = .ok [row 1 [1] [9], row 9 [2] [2]] := by decide
+example : pinnedRows (.libsvm 32 0) [49, 32, 49, 58] = .ok [row 1 [1] [0]] := by decide
+/-- repaired: the dangling colon yields an entry without value; mixed with a valued row the block is rejected by GetBlock -/
+example : repairedRows (.libsvm 32 0) [49, 32, 49, 58] =
+    .ok [{ label := some 1, weight := none, qid := none, field := none, index := [1], value := none }] := by decide
+
+/-- "1 qid:\n7 1:1\n": C11-F2, the qid of row 0 is taken from the next line -/
+def docQid : Bytes := [49, 32, 113, 105, 100, 58, 10, 55, 32, 49, 58, 49, 10]
+example : ((Format.libsvm 32 0).parseBlock Fixes.pinned convSkip (docQid ++ [0]) 0 docQid.length).map (·.qid) = .ok [7] := by
+  decide
+example : ((Format.libsvm 32 0).parseBlock Fixes.repaired convSkip (docQid ++ [0]) 0 docQid.length).map (·.qid) = .ok [0] := by
+  decide
+
+/-- "1 1:1\n# 5 2:3\n2 1:1\n": C11-F4, the comment line is parsed as a row unless it is first in its block -/
+def docComment : Bytes := [49, 32, 49, 58, 49, 10, 35, 32, 53, 32, 50, 58, 51, 10, 50, 32, 49, 58, 49, 10]
+example : pinnedRows (.libsvm 32 0) docComment = .ok [row 1 [1] [1], row 5 [2] [3], row 2 [1] [1]] := by decide
+example : repairedRows (.libsvm 32 0) docComment = .ok [row 1 [1] [1], row 2 [1] [1]] := by decide
+/-- … and with a block boundary in front of the comment the pinned source gives 2 rows: the row stream depends on the cut -/
+example : pinnedRows (.libsvm 32 0) (docComment.drop 6) = .ok [row 2 [1] [1]] := by decide
+
+/-- "1, \n3,4\n": C11-F3, the blank csv cell takes the first cell of the next line -/
+def docCsv : Bytes := [49, 44, 32, 10, 51, 44, 52, 10]
+def csvPrm : CsvParam := { labelCol := 4294967295, weightCol := 4294967295, delim := 44, isReal := true }
+def crow (i v : List Nat) : Row :=
+  { label := none, weight := none, qid := none, field := none, index := i, value := some v }
+example : pinnedRows (.csv csvPrm) docCsv = .ok [crow [0, 1] [1, 3], crow [0, 1] [3, 4]] := by decide
+example : repairedRows (.csv csvPrm) docCsv = .ok [crow [0] [1], crow [0, 1] [3, 4]] := by decide
+
+/-- "1 2:\n9\n": C11-F1 for libfm (ParseTriple) -/
+def docFm : Bytes := [49, 32, 50, 58, 10, 57, 10]
+example : ((Format.libfm 32 0).parseBlock Fixes.pinned convSkip (docFm ++ [0]) 0 docFm.length).map (·.index) = .ok [9] := by
+  decide
+example : ((Format.libfm 32 0).parseBlock Fixes.repaired convSkip (docFm ++ [0]) 0 docFm.length).map (·.index) = .ok [] := by
+  decide
+
 end DmlcModel.Props.C11Witness
